@@ -278,8 +278,9 @@ def run_list_prop(prop, tier, seed, only_kinds=None, harness_variant='std', coll
         for j in jobs:
             if j['exec']['rc'] != 0:
                 # the harness process died on a signal (abort from a null/misaligned-pointer check, SIGSEGV on a poisoned
-                # pointer, ...): a memory-safety symptom, which the memory properties claim; elsewhere it is a tool error
-                if prop in ('C03', 'C18') and j['exec']['rc'] < 0:
+                # pointer, the watchdog's abort when a library call does not return): a memory-safety symptom, which the
+                # memory properties claim, and an operation that did not return normally (C05); elsewhere a tool error
+                if prop in ('C03', 'C18', 'C05') and j['exec']['rc'] < 0:
                     crashes.append(locate_crash(j, binary, flags, seed, work))
                     j['shards'] = []
                     continue
